@@ -14,6 +14,13 @@ Theorem C18_intern_refines :
 Proof. exact intern_refines. Qed.
 Print Assumptions C18_intern_refines.
 
+(** In particular no step of any history hits a model crash: refcount underflow (`refcnt() - 1`
+    on zero), the 31-bit overflow assertion, a dangling handle, the issue-113 assertion. *)
+Theorem C18_refcount_no_underflow :
+  forall ops, short ops -> impl_run init ops <> None.
+Proof. exact refcount_no_underflow. Qed.
+Print Assumptions C18_refcount_no_underflow.
+
 (** Pointer equality of two live handles (IStr or IBytes, also across casts) is content equality. *)
 Theorem C18_eq_iff_content :
   forall ops s i j, short ops -> impl_run init ops = Some s ->
